@@ -14,7 +14,7 @@
    never touches the terminator after it located it).  A read or a write at
    an index outside that list makes the model function return None. *)
 From Coq Require Import List ZArith Bool Arith.
-From RtoscV Require Import Osc.OscModel Ports.MetaModel Ports.NameModel.
+From RtoscV Require Import Match.PatSpec Match.MatchModel Osc.OscModel Ports.MetaModel Ports.NameModel.
 Import ListNotations.
 Local Open Scope Z_scope.
 
@@ -188,7 +188,7 @@ Inductive ares :=
 | ANull                          (* NULL *)
 | AFound (id : list nat)         (* the port with that index path *)
 | ACrash                         (* strchr(path,'/') returned NULL and was dereferenced *)
-| AUnsupported.
+| AUnsupported.                  (* the matcher model ran out of fuel (never: C05_path_total) *)
 
 Definition aprepend (i : nat) (r : ares) : ares :=
   match r with AFound id => AFound (i :: id) | x => x end.
@@ -207,10 +207,10 @@ Fixpoint apropos_leaf (t : list port) (i : nat) (path : str) : ares :=
   | p :: r =>
       if is_nil path then apropos_leaf r (S i) path
       else if prefixb path (pname p) then AFound [i]
-      else match match_path false (pname p) path with
-           | MSome _ _ => AFound [i]
+      else match match_path (pname p) path with
+           | MRet _ _ => AFound [i]
            | MNull => apropos_leaf r (S i) path
-           | MUnsupported => AUnsupported
+           | MFuel => AUnsupported
            end
   end.
 
@@ -229,8 +229,8 @@ Fixpoint apropos_port (pinned : bool) (p : port) (path0 : str) {struct p} : ares
          | [] => apropos_leaf t 0%nat path
          | q :: r =>
              if has_char 47 (pname q) then
-               match match_path false (pname q) path with
-               | MSome _ path_end =>
+               match match_path (pname q) path with
+               | MRet _ path_end =>
                    match psub q with
                    | Some _ =>
                        if pinned then
@@ -246,7 +246,7 @@ Fixpoint apropos_port (pinned : bool) (p : port) (path0 : str) {struct p} : ares
                    | None => AFound [i]
                    end
                | MNull => loop1 r (S i)
-               | MUnsupported => AUnsupported
+               | MFuel => AUnsupported
                end
              else loop1 r (S i)
          end) t 0%nat
